@@ -20,7 +20,6 @@ type fragConn struct {
 	out    []byte
 }
 
-
 func (c *fragConn) Read(p []byte) (int, error) {
 	c.mu.Lock()
 	defer c.mu.Unlock()
